@@ -167,7 +167,11 @@ func (sll *LinuxSLL2) DecodeFromBytes(data []byte, df gopacket.DecodeFeedback) e
 	sll.PacketType = LinuxSLL2PacketType(data[10])
 	sll.AddrLength = data[11]
 	sll.Addr = data[12:20]
-	sll.Addr = sll.Addr[:sll.AddrLength]
+	// The address field is 8 bytes long: of a longer address (e.g.
+	// InfiniBand) only the first 8 bytes are present.
+	if sll.AddrLength < 8 {
+		sll.Addr = sll.Addr[:sll.AddrLength]
+	}
 	sll.BaseLayer = BaseLayer{data[:20], data[20:]}
 
 	return nil
